@@ -446,7 +446,28 @@ fn child_odd_flags(fd: i32) -> i32 {
             }
         }
     }
-    wr(fd, &format!("STATS reg=4 unreg_live=0 unreg_stale=0 unreg_other=0 clear=0 deliver={} signals=4 maxlen=1\n", delivered));
+    // the last action is removed and another one registered: the library's handler is still the disposition (not the
+    // foreign one again) and the new action is delivered
+    for (i, (sig, flags)) in cases.iter().enumerate() {
+        #[allow(deprecated)]
+        signal_hook_registry::unregister_signal(*sig);
+        match crate::sig::disposition(*sig) {
+            Some((h, _)) if h == dispatcher => {}
+            other => wr(fd, &format!("BAD after the last action of taken-over signal {} was removed its disposition is {:x?} (dispatcher is {:#x}; previous handler had flags {:#x})\n", sig, other, dispatcher, flags)),
+        }
+        let tag = 200 + i;
+        if unsafe { signal_hook_registry::register(*sig, move || ran(tag)) }.is_err() {
+            wr(fd, &format!("BAD register({}) failed\n", sig));
+        }
+        take_runlog();
+        unsafe { libc::raise(*sig) };
+        delivered += 1;
+        let got = take_runlog();
+        if got != vec![tag] {
+            wr(fd, &format!("BAD delivery of signal {} after its last action had been removed and a new one registered ran actions {:?}, the model says [{}]\n", sig, got, tag));
+        }
+    }
+    wr(fd, &format!("STATS reg=8 unreg_live=0 unreg_stale=0 unreg_other=0 clear=4 deliver={} signals=4 maxlen=1\n", delivered));
     wr(fd, "DONE\n");
     0
 }
@@ -674,6 +695,17 @@ pub fn main(args: &[String]) -> i32 {
         }
         if !bad.is_empty() {
             break;
+        }
+    }
+    if crate::has_flag(args, "--race-remove") && bad.is_empty() {
+        // history: a stop signal handled through the library's default emulation stops the process, SIGCONT continues it:
+        // the library's handler is still the disposition of that signal (checked inside the child)
+        let out = crate::w_default::stop_then_term(true, libc::SIGTSTP, libc::SIGTERM);
+        keys.insert("emulated-stop-history".to_string());
+        if let crate::w_default::Outcome::Other(m) = &out {
+            if m.contains("no longer the disposition") {
+                bad.push(("disposition-not-kept".into(), format!("{} [SIGTSTP emulated, then SIGCONT]", m)));
+            }
         }
     }
     let mut nviol = 0;
